@@ -2,7 +2,10 @@ package main
 
 import (
 	"fmt"
+	"go/types"
 	"os"
+
+	"golang.org/x/tools/go/ssa"
 )
 
 func main() {
@@ -94,6 +97,39 @@ func init() {
 			if containsStr(FuncName(fn), arg) {
 				fn.WriteTo(os.Stdout)
 			}
+		}
+	}
+}
+
+func init() {
+	debugHooks["index"] = func(P *Program, M *Model, arg string) {
+		for _, fn := range P.ModFuncs {
+			allInstrs(fn, func(b *ssa.BasicBlock, ins ssa.Instruction) {
+				switch x := ins.(type) {
+				case *ssa.IndexAddr:
+					if isRangeIndex(x.Index) {
+						return
+					}
+					if _, isArr := deref(x.X.Type()).Underlying().(*types.Array); isArr {
+						return
+					}
+					fmt.Printf("INDEXADDR %s %s  idx=%s  base=%s\n", P.Pos(x.Pos()), FuncName(fn), short(P.Desc(x.Index)), short(P.Desc(x.X)))
+				case *ssa.Slice:
+					if _, isArr := deref(x.X.Type()).Underlying().(*types.Array); isArr {
+						return
+					}
+					lo, hi := "", ""
+					if x.Low != nil {
+						lo = short(P.Desc(x.Low))
+					}
+					if x.High != nil {
+						hi = short(P.Desc(x.High))
+					}
+					fmt.Printf("SLICE %s %s  [%s:%s] base=%s\n", P.Pos(x.Pos()), FuncName(fn), lo, hi, short(P.Desc(x.X)))
+				case *ssa.Index:
+					fmt.Printf("INDEX %s %s idx=%s\n", P.Pos(x.Pos()), FuncName(fn), short(P.Desc(x.Index)))
+				}
+			})
 		}
 	}
 }
